@@ -65,6 +65,12 @@ type Gen struct {
 	R      *core.Rng
 	P      Profile
 	tables []string
+	// passed: a GC pass has already run on the big table in this program. A pass deletes the rows it
+	// empties; a write that re-creates such a row DURING a later pass inserts a row, and whether a
+	// pass visits a row inserted while it runs is engine dependent (the btree engine iterates the
+	// live tree, the leveldb engines a snapshot) and not fixed by the property. So only the first
+	// pass of a program gets writes aimed at rows that it empties.
+	passed bool
 }
 
 func (g *Gen) pickTable() string {
@@ -403,6 +409,7 @@ func (g *Gen) fillRows(prog *[]core.Op, table string) {
 // Program draws one random program under the profile.
 func (g *Gen) Program() []core.Op {
 	g.tables = nil
+	g.passed = false
 	var prog []core.Op
 	prog = append(prog, &Op{Kind: "rand", N: 500}, &Op{Kind: "clock", N: core.Pick(g.R, Clocks[:7])})
 	g.setupTable(&prog, "p", "t")
@@ -571,6 +578,7 @@ func (g *Gen) Program() []core.Op {
 			write = false
 		case 12:
 			prog = append(prog, &Op{Kind: "gc", Name: t})
+			g.passed = true
 		case 13:
 			prog = append(prog, &Op{Kind: "clock", N: core.Pick(g.R, Clocks)})
 			write = false
@@ -583,7 +591,11 @@ func (g *Gen) Program() []core.Op {
 			t = big
 			for j := 0; j < 1+g.R.Intn(3); j++ {
 				ki := g.R.Intn(g.P.Big)
-				if g.R.Chance(1, 2) {
+				if g.passed {
+					for ki%3 == 1 { // rows that live in family g only may have been deleted by an earlier pass
+						ki = g.R.Intn(g.P.Big)
+					}
+				} else if g.R.Chance(1, 2) {
 					ki = 1 + 3*g.R.Intn(33) // a g-only row among the first hundred: visited before the first reversal
 				}
 				k := []byte(fmt.Sprintf("r%04d", ki))
@@ -594,6 +606,7 @@ func (g *Gen) Program() []core.Op {
 				o.Entries = append(o.Entries, Entry{Key: k, Muts: ms})
 			}
 			prog = append(prog, o)
+			g.passed = true
 		}
 		if write && p.ReadAfterWrite {
 			if g.R.Chance(3, 4) {
